@@ -433,7 +433,7 @@ impl<B> Flow<B, Await100> {
     }
 
     /// Proceed to the next state.
-    pub fn proceed(self) -> Result<Await100Result<B>, Error> {
+    pub fn proceed(mut self) -> Result<Await100Result<B>, Error> {
         // We can always proceed out of Await100
 
         if self.inner.should_send_body {
@@ -441,6 +441,15 @@ impl<B> Flow<B, Await100> {
             flow.inner.call.analyze_request()?;
             Ok(Await100Result::SendBody(flow))
         } else {
+            // The server did not want the body. Receive the response without sending it.
+            let call_body = match self.inner.call {
+                CallHolder::WithBody(v) => v,
+                _ => unreachable!(),
+            };
+
+            let call_recv = call_body.into_receive_skip_body();
+            self.inner.call = CallHolder::RecvResponse(call_recv);
+
             Ok(Await100Result::RecvResponse(Flow::wrap(self.inner)))
         }
     }
